@@ -85,8 +85,9 @@ uint64_t __vf_libc_strlen(char* s){ uint64_t n=0; while(s[n]) n++; return n; }
 uint32_t __vf_libc_memcmp(char* a, char* b, uint64_t n){ for(uint64_t i=0;i<n;i++){ unsigned char x=a[i], y=b[i]; if(x!=y) return x<y?(uint32_t)-1:1; } return 0; }
 uint32_t __vf_libc_bcmp(char* a, char* b, uint64_t n){ return __vf_libc_memcmp(a,b,n); }
 char* __vf_libc_memchr(char* s, uint32_t c, uint64_t n){ for(uint64_t i=0;i<n;i++) if((unsigned char)s[i]==(unsigned char)c) return s+i; return 0; }
-uint32_t __vf_libc_toupper(uint32_t c){ return (c>='a'&&c<='z')? c-32 : c; }
-uint32_t __vf_libc_tolower(uint32_t c){ return (c>='A'&&c<='Z')? c+32 : c; }
+/* glibc, C locale: the tables cover -128..255; a negative char other than EOF (-1) maps to its unsigned value */
+uint32_t __vf_libc_toupper(uint32_t c){ int32_t x=(int32_t)c; if(x>='a'&&x<='z') return c-32; if(x<-1&&x>=-128) return (uint32_t)(x+256); return c; }
+uint32_t __vf_libc_tolower(uint32_t c){ int32_t x=(int32_t)c; if(x>='A'&&x<='Z') return c+32; if(x<-1&&x>=-128) return (uint32_t)(x+256); return c; }
 char* __vf_libc_strncpy(char* d, char* s, uint64_t n){ uint64_t i=0; for(;i<n&&s[i];i++) d[i]=s[i]; for(;i<n;i++) d[i]=0; return d; }
 char* __vf_libc_malloc(uint64_t n){ char* p=malloc(n?n:1); __CPROVER_assume(p!=0); return p; }
 void __vf_libc_free(char* p){ free(p); }
